@@ -10,6 +10,7 @@ import warnings
 import wn
 
 from .. import env, mk, runner, budget
+from ..observe import rel_lexicon, ili_of
 
 PROP = 'C12'
 
@@ -115,7 +116,7 @@ class Ref:
 
 def node_of(ss, lid):
     if ss.id == '*INFERRED*':
-        return ('INF', ss._ili)
+        return ('INF', ili_of(ss))
     return ('L', int(ss.id[len(lid) + 1:]))
 
 
@@ -125,7 +126,7 @@ def observe_synset(w, lid, k, ref, V, tag, g, obs):
     x = w.synset(f'{lid}-{k}')
     exp = ref.step(('L', k))
     st, v = budget.call(lambda: list(x._iter_relations()), budget=2000)
-    got = [((r.name, r.source_id, r.target_id, r._lexicon), node_of(t, lid)) for r, t in v] if st == 'ok' else None
+    got = [((r.name, r.source_id, r.target_id, rel_lexicon(r)), node_of(t, lid)) for r, t in v] if st == 'ok' else None
     if st != 'ok':
         bad(f'relations:{st}', f'{lid}-{k} relations -> {v!r}')
         return
@@ -152,11 +153,11 @@ def observe_synset(w, lid, k, ref, V, tag, g, obs):
     exp_keys = {}
     for rk, t in exp:
         exp_keys.setdefault(rk, set()).add(t)
-    got_keys = {(r.name, r.source_id, r.target_id, r._lexicon): node_of(t, lid) for r, t in rm.items()}
+    got_keys = {(r.name, r.source_id, r.target_id, rel_lexicon(r)): node_of(t, lid) for r, t in rm.items()}
     if set(got_keys) != set(exp_keys) or any(got_keys[rk] not in exp_keys[rk] for rk in got_keys):
         bad('relation_map():differs', f'{lid}-{k}.relation_map() = {got_keys} expected one of {exp_keys}')
     for r in rm:
-        if r.lexicon().specifier() != r._lexicon:
+        if r.lexicon().specifier() != rel_lexicon(r):
             bad('relation_map():lexicon', f'{r!r}.lexicon() = {r.lexicon().specifier()}')
     st, v = budget.call(x.hypernym_paths, budget=4000)
     if st != 'ok':
@@ -322,7 +323,7 @@ def check_versions(case):
         warned = [str(r.message) for r in rec if issubclass(r.category, wn.WnWarning)]
         if bool(missing) != bool(warned) or (warned and not all(m in warned[0] for m in missing)):
             V.append(('default-expand:warning', f'{case}: missing {missing} warnings {warned}'))
-        hy = sorted(t.id + '|' + str(t._ili) for t in w.synset('L-0').hypernyms())
+        hy = sorted(t.id + '|' + str(ili_of(t)) for t in w.synset('L-0').hypernyms())
         exph = sorted(['*INFERRED*|i2'] * len(exp)) if case['layout'] == 'one' else sorted(
             ['M-0|i2'] * len(exp))
         if hy != sorted(set(exph)):
